@@ -115,6 +115,18 @@ def run(ctx):
     rhs_divisions(ctx)
 
 
+def run_with_callback(ctx, rule, name, mloc, **kw):
+    """run_update with a regime callback; a regime that is stored only under a data-dependent condition is itself the violation"""
+    from ..values import Unsupported
+    try:
+        return driver.run_update(ctx, **kw)
+    except Unsupported as ex:
+        if "opaque" not in str(ex):
+            raise
+        ctx.ob(rule, name, False, f"the regime reported by get_regime is stored only under a data-dependent condition; the regime then in force is undetermined ({ex})", mloc)
+        return None
+
+
 def null_rhs(ctx):
     mloc = ctx.program.loc(ctx.program.module("pydrex.minerals"), ctx.program.require_method("pydrex.minerals.Mineral", "update_orientations")) + " (eval_rhs)"
     for regime in ("min_viscosity", "max_viscosity"):
@@ -123,8 +135,10 @@ def null_rhs(ctx):
             kw = {}
             if how == "callback":
                 kw["get_regime"] = Native("get_regime", lambda I_, t, x, r=regime: enum(I_, "pydrex.core.DeformationRegime", r))
-            R = driver.run_update(ctx, regime=regime if how == "field" else "matrix_dislocation", N=2, stub_derivatives=False, **kw)
             tag = f"{regime}:{how}"
+            R = run_with_callback(ctx, "C07.null-rhs", tag, mloc, regime=regime if how == "field" else "matrix_dislocation", N=2, stub_derivatives=False, **kw)
+            if R is None:
+                continue
             if R.exc is not None or not R.rhs_calls:
                 ctx.ob("C07.null-rhs", tag, False, f"update raised {R.exc!r}", mloc)
                 continue
@@ -155,18 +169,48 @@ def history(ctx):
     from ..values import Native
     cls_holder = {}
 
+    def with_callback(rule, name, **kw):
+        return run_with_callback(ctx, rule, name, mloc, **kw)
+
     def get_regime(I_, t, x):
         return enum(I_, "pydrex.core.DeformationRegime", "sliding_diffusion")
-    R = driver.run_update(ctx, N=2, stub_derivatives=False, get_regime=Native("get_regime", get_regime))
-    muts = driver.history_mutations(R)
-    ctx.ob("C07.history", "get_regime returns an unsupported regime", R.exc is not None and R.exc.typename == "ValueError" and not muts,
-           f"exception {R.exc!r}; history events {[(k, w) for _, k, w, _ in muts]}", mloc)
+    R = with_callback("C07.history", "get_regime returns an unsupported regime", N=2, stub_derivatives=False, get_regime=Native("get_regime", get_regime))
+    if R is not None:
+        muts = driver.history_mutations(R)
+        ctx.ob("C07.history", "get_regime returns an unsupported regime", R.exc is not None and R.exc.typename == "ValueError" and not muts,
+               f"exception {R.exc!r}; history events {[(k, w) for _, k, w, _ in muts]}", mloc)
     for raw in (8, -1, 21, 3):
-        R = driver.run_update(ctx, N=2, stub_derivatives=False, get_regime=Native("get_regime", lambda I_, t, x, r=raw: r))
+        R = with_callback("C07.history", f"get_regime returns the raw ordinal {raw}", N=2, stub_derivatives=False, get_regime=Native("get_regime", lambda I_, t, x, r=raw: r))
+        if R is None:
+            continue
         muts = driver.history_mutations(R)
         ctx.ob("C07.history", f"get_regime returns the raw ordinal {raw}", R.exc is not None and R.exc.typename == "ValueError" and not muts,
                f"exception {R.exc!r}; history events {[(k, w) for _, k, w, _ in muts]}" + ("" if R.exc is not None else " (an invalid/unsupported ordinal produced numbers)"), mloc)
     ctx.floor("C07.history", 10)
+    # the regime in force in an evaluation of the right-hand side at (t, x(t)) is the one the callback reports for that same (t, x(t))
+    ctx.rule("C07.callback", "with a regime callback, every evaluation of the right-hand side at time t hands core.derivatives the regime reported by "
+                             "get_regime(t, x(t)) for that t (a regime entered during the interval takes effect, so a null or unsupported regime cannot be skipped)")
+    seq = ["matrix_dislocation", "frictional_yielding"]
+    asked = []
+
+    def get_regime2(I_, t, x):
+        asked.append((t, x))
+        return enum(I_, "pydrex.core.DeformationRegime", seq[(len(asked) - 1) % 2])
+    R = with_callback("C07.callback", "regime stored from the callback unconditionally", N=2, nsteps=2, get_regime=Native("get_regime", get_regime2))
+    if R is None:
+        return
+    if R.exc is not None or not R.rhs_calls:
+        ctx.ob("C07.callback", "update with a regime callback", False, f"raises {R.exc!r}", mloc)
+    else:
+        for k, ((tk, yk, res), (a, kw)) in enumerate(zip(R.rhs_calls, R.deriv_calls), 1):
+            mine = [j for j, (t_, x_) in enumerate(asked) if lift(t_) == lift(tk)]
+            used = kw.get("regime", a[0] if a else None)
+            xk = R.xfun.fn(R.I, tk)
+            ok = bool(mine) and getattr(used, "name", None) == seq[mine[-1] % 2] and \
+                isinstance(asked[mine[-1]][1], np.ndarray) and all(lift(p) == lift(q) for p, q in zip(asked[mine[-1]][1].flat, np.asarray(xk, dtype=object).flat))
+            ctx.ob("C07.callback", f"right-hand side evaluation {k}", ok,
+                   f"regime used: {getattr(used, 'name', used)!r}; the callback was asked at times {[short(t_, 20) for t_, _ in asked]} and this evaluation is at {short(tk, 20)}", mloc)
+        ctx.floor("C07.callback", 2)
 
 
 def rhs_divisions(ctx):
